@@ -162,6 +162,10 @@ def gen(ctx, tier, rng):
             r = ms.ask("ss.pull 1 %s %s" % (hexs(bytes(b)), hexs(ad)))
             if r.split(" ")[0] == "0":
                 raise vcore.BrokenCheck("model accepted a bit-flipped chunk")
+        for x in vcore.tag_mutations(rng, chunk[-16:]):      # same delta at every pair of authenticator positions, complement, rotations, swaps
+            r = ms.ask("ss.pull 1 %s %s" % (hexs(chunk[:-16] + x), hexs(ad)))
+            if r.split(" ")[0] == "0":
+                raise vcore.BrokenCheck("model accepted a chunk with an altered authenticator")
         ms.ask("ss.pull 1 %s %s" % (hexs(chunk), hexs(ad)))
     ms.close()
     MODEL_OUT = ms.outs
